@@ -27,7 +27,7 @@ var commonAssumptions = []string{
 	"counterexamples are reported only after native replay against the compiled code (go test -overlay)",
 }
 
-const c08Common = "the agent is built by the REAL newAgentWithConfig (real task loop, real on-close teardown closure, real notifiers, real initial Restart) around a struct literal mirroring createAgentBase; Close or GracefulClose is injected after 0..3 (thorough 0..7) fair hand-overs to the other goroutines, plus every schedule with at most 1 (thorough 2) preemptions at synchronisation points and the first 2–3 (thorough 6) free switches explored over all enabled threads"
+const c08Common = "the agent is built by the REAL newAgentWithConfig (real task loop, real on-close teardown closure, real notifiers, real initial Restart) around a struct literal mirroring createAgentBase; Close or GracefulClose is injected after 0..3 (thorough 0..7) fair hand-overs to the other goroutines, plus every schedule with at most 1 preemption at synchronisation points and the first 2–3 (thorough 4–5) free switches explored over all enabled threads"
 
 func allChecks() []CheckSpec {
 	return []CheckSpec{
@@ -59,19 +59,19 @@ func allChecks() []CheckSpec {
 						c.MaxWallS = 1200
 					}},
 				{Fn: "verifC11GatherVsRestart", Lemma: "GatherCandidates racing with Restart on the real task loop, the real gatherCandidates goroutine and the real notifier: at most one nil candidate per cycle, exactly one when the cycle completed, none from a refused or cancelled cycle, final gathering state New or Complete",
-					Bounds: "one gather call and one Restart, fake net without interfaces, context bound 1 (thorough 2), the first 5 (thorough 7) non-preemptive switch points explored over all enabled threads, later ones least-recently-run", MustReach: []string{"completed", "cancelled-by-restart", "done"},
+					Bounds: "one gather call and one Restart, fake net without interfaces, Restart after 0..8 (thorough 0..12) fair hand-overs, context bound 1, the first 5 (thorough 7) non-preemptive switch points explored over all enabled threads, later ones least-recently-run", MustReach: []string{"completed", "cancelled-by-restart", "done"},
 					Cfg: func(c *HarnessCfg, tier int) {
 						c.GoPolicy = "explore"
-						c.ContextBound = 1 + tier
+						c.ContextBound = 1
 						c.FreeChoiceBound = 5 + 2*tier
 						c.MaxPaths = 8000000
 						c.MaxWallS = 1500
 					}},
 				{Fn: "verifC11RestartDuringCycle", Lemma: "Restart issued after GatherCandidates returned, at any explored moment of the running cycle (incl. the instant before it reports completion): once Restart has returned and the old cycle wound down the gathering state is New (a superseded cycle cannot overwrite it), the old cycle emitted its nil candidate at most once, and a fresh cycle is accepted, completes and emits exactly one more",
-					Bounds: "Restart after 0..8 (thorough 0..12) fair hand-overs, context bound 1 (thorough 2), first 4 (6) free switches explored, fake net without interfaces", MustReach: []string{"completed-before-restart", "cancelled-by-restart", "done"},
+					Bounds: "Restart after 0..8 (thorough 0..12) fair hand-overs, context bound 1, first 4 (thorough 6) free switches explored, fake net without interfaces", MustReach: []string{"completed-before-restart", "cancelled-by-restart", "done"},
 					Cfg: func(c *HarnessCfg, tier int) {
 						c.GoPolicy = "explore"
-						c.ContextBound = 1 + tier
+						c.ContextBound = 1
 						c.FreeChoiceBound = 4 + 2*tier
 						c.MaxPaths = 8000000
 						c.MaxWallS = 1500
@@ -89,8 +89,8 @@ func allChecks() []CheckSpec {
 					Bounds: "5 operations x {Close, GracefulClose}; " + c08Common, MustReach: []string{"closed", "done"},
 					Cfg: func(c *HarnessCfg, tier int) {
 						c.GoPolicy = "explore"
-						c.ContextBound = 1 + tier
-						c.FreeChoiceBound = 2 + 4*tier
+						c.ContextBound = 1
+						c.FreeChoiceBound = 2 + 2*tier
 						c.MaxPaths = 6000000
 						c.MaxWallS = 2400
 					}},
@@ -98,8 +98,8 @@ func allChecks() []CheckSpec {
 					Bounds: "4 kinds x {Close, GracefulClose}; one local host candidate on a blocking fake socket, one remote; " + c08Common, MustReach: []string{"closed", "socket-read-was-pending-at-close", "socket-write-was-blocked-at-close", "done"},
 					Cfg: func(c *HarnessCfg, tier int) {
 						c.GoPolicy = "explore"
-						c.ContextBound = 1 + tier
-						c.FreeChoiceBound = 2 + 4*tier
+						c.ContextBound = 1
+						c.FreeChoiceBound = 2 + 2*tier
 						c.MaxPaths = 6000000
 						c.MaxWallS = 2400
 					}},
@@ -107,8 +107,8 @@ func allChecks() []CheckSpec {
 					Bounds: "one IPv4 interface, host candidates only; " + c08Common, MustReach: []string{"closed", "socket-opened-before-close", "done"},
 					Cfg: func(c *HarnessCfg, tier int) {
 						c.GoPolicy = "explore"
-						c.ContextBound = 1 + tier
-						c.FreeChoiceBound = 3 + 3*tier
+						c.ContextBound = 1
+						c.FreeChoiceBound = 3 + 2*tier
 						c.MaxPaths = 6000000
 						c.MaxWallS = 2400
 					}},
@@ -116,8 +116,8 @@ func allChecks() []CheckSpec {
 					Bounds: "StartDial triggers Checking; " + c08Common, MustReach: []string{"closed", "done"},
 					Cfg: func(c *HarnessCfg, tier int) {
 						c.GoPolicy = "explore"
-						c.ContextBound = 1 + tier
-						c.FreeChoiceBound = 3 + 3*tier
+						c.ContextBound = 1
+						c.FreeChoiceBound = 3 + 2*tier
 						c.MaxPaths = 6000000
 						c.MaxWallS = 2400
 					}},
@@ -125,8 +125,8 @@ func allChecks() []CheckSpec {
 					Bounds: "3 closers, one started candidate; " + c08Common, MustReach: []string{"closed", "done"},
 					Cfg: func(c *HarnessCfg, tier int) {
 						c.GoPolicy = "explore"
-						c.ContextBound = 1 + tier
-						c.FreeChoiceBound = 2 + 4*tier
+						c.ContextBound = 1
+						c.FreeChoiceBound = 2 + 2*tier
 						c.MaxPaths = 6000000
 						c.MaxWallS = 2400
 					}},
@@ -163,7 +163,7 @@ func allChecks() []CheckSpec {
 			ID: "C15",
 			Harnesses: []HarnessSpec{
 				{Fn: "verifC15HandleConn", Lemma: "one accepted TCP connection through the real handleConn/readStreamingPacket/stun.Message.Decode/getConn/createConn/AddConn/startReading: closed iff the first frame is missing, truncated, oversized (>512), undecodable, not Binding or lacks USERNAME; otherwise attached to exactly the packet conn of (ufrag before ':', family of the peer, local IP) — created with the expiry timer armed when the ufrag is unknown, the agent's own when it had asked for it; the first message and later packets are delivered there in order with the peer's address; a reply written to that address goes back over the same connection with RFC 4571 framing; provisional conns expire; Close closes listener and connections and hands out nothing afterwards",
-					Bounds: "8 first-frame kinds (two well-formed with known/unknown ufrag and a symbolic priority/transaction id, no USERNAME, non-Binding, an arbitrary 20-byte header, oversized, truncated, nothing), segmentations with up to 2 partial reads (1 byte or half), ufrag pre-registered or not, one later 3-byte packet and one 2-byte reply with symbolic bytes", MustReach: []string{"rejected", "admitted", "known-ufrag", "unknown-ufrag", "expired", "done"},
+					Bounds: "8 first-frame kinds (two well-formed with known/unknown ufrag and a symbolic priority/transaction id, no USERNAME, non-Binding, an arbitrary 20-byte header, oversized, truncated, nothing), segmentations with up to 2 partial reads (1 byte or half), ufrag pre-registered or not, one later 3-byte packet and one 2-byte reply with symbolic bytes", MustReach: []string{"rejected", "admitted", "known-ufrag", "unknown-ufrag", "expired", "ipv4-in-16-byte-form", "done"},
 					Cfg: func(c *HarnessCfg, tier int) { c.GoPolicy = "queue" }},
 				{Fn: "verifC15TwoPeers", Lemma: "two TCP connections naming the same unregistered ufrag share one provisional packet conn; unless the agent claims the ufrag (GetConnByUfrag) its expiry stays armed and, when it fires, closes both TCP connections and removes the packet conn; once claimed it does not expire",
 					Bounds: "2 peers, symbolic priorities/transaction ids, claimed or not; the alive timer fires when the harness fires it", MustReach: []string{"claimed", "expired", "done"},
@@ -240,7 +240,7 @@ func allChecks() []CheckSpec {
 			ID: "C13",
 			Harnesses: []HarnessSpec{
 				{Fn: "verifC13Refcount", Lemma: "2..3 handles for one ufrag share one underlying connection that is closed exactly when the last handle closes (repeated Close is idempotent); a closed handle's reads and writes fail with ErrClosedPipe while siblings keep reading and writing",
-					Bounds: "2..3 handles, 4 (quick) / 6 (thorough) operations from {Close, WriteTo, ReadFrom with a packet queued} on any handle", MustReach: []string{"write-on-closed-handle", "sibling-write", "read-on-closed-handle", "sibling-read", "done"},
+					Bounds: "2..3 handles, 4 (quick) / 6 (thorough) operations from {Close, WriteTo, ReadFrom with a packet queued} on any handle", MustReach: []string{"write-on-closed-handle", "sibling-write", "read-on-closed-handle", "sibling-read", "addrport-handles", "done"},
 					Cfg: func(c *HarnessCfg, tier int) { c.GoPolicy = "queue" }},
 				{Fn: "verifC13AbortInterleaved", Lemma: "schedule exploration over the real writeToContext/writeTo/startWriteContext/finishWrite/abortWrite/clearWriteDeadlineAfterAbort and the lock-free state word (every atomic operation is a scheduling point): a context-bound write blocked in the socket, a concurrent plain write by another user, and the cancellation of the first context: under every schedule within the bound everybody returns (no deadlock/livelock), the state word returns to 0, the last deadline set on the shared socket is 'none', and a later write succeeds",
 					Bounds: "threads: harness, 2 writers, canceller, the internal abort goroutine, connWorker; at most 2 preemptive context switches (thorough 3) at synchronisation-point granularity incl. every atomic load/CAS/store of the state word", MustReach: []string{"deadline-was-armed", "done"},
@@ -276,7 +276,7 @@ func allChecks() []CheckSpec {
 				{Fn: "verifC16AttrSizes", Lemma: "decoders accept exactly the documented sizes (PRIORITY 4, tie-breaker 8, ACK multiples of 4 up to 16, nomination >= 4)",
 					Bounds: "attribute values of every length 0..20 with arbitrary bytes", MustReach: []string{"done"}},
 				{Fn: "verifC16Equality", Lemma: "Equal and DeepEqual are reflexive and symmetric and DeepEqual implies Equal, over pairs of candidates from the real constructors",
-					Bounds: "4 types x 5 pool addresses (IPv4, IPv6, IPv4-mapped, mDNS) x udp/tcp x any port/component/priority x 4 TCP types x 3 related-address forms x 0..1 (thorough 0..2) one-byte extensions, for both candidates", MustReach: []string{"equal", "deep-equal", "done"}},
+					Bounds: "4 types x 5 pool addresses (IPv4, IPv6, IPv4-mapped, mDNS) x udp/tcp x any port/component/priority x 4 TCP types x 3 related-address forms x 0..1 (thorough 0..2) one-byte extensions, for both candidates", MustReach: []string{"equal", "deep-equal", "mdns-resolved", "done"}},
 				{Fn: "verifC16ExtensionEquality", Lemma: "DeepEqual of two candidates that differ only in their extension lists is reflexive, symmetric and equal to multiset equality of the (key, value) pairs (extension names may repeat, order is irrelevant); Equal ignores extensions",
 					Bounds: "two host candidates with 2 (thorough: 2..3) extensions each, every key and value an arbitrary byte, so repeated names with equal or different values are included", MustReach: []string{"deep-equal", "not-deep-equal", "done"}},
 				{Fn: "verifC16Tokenizers", Lemma: "the five tokenizers on arbitrary text from any start offset: no panic, returned positions within [start,len], tokens respect their alphabets, digit value = decimal value, port <= 65535",
